@@ -45,6 +45,7 @@ Upd(signer, p) == [type |-> "UpdateParams", signer |-> signer, params |-> p]
 
 ValsetEvents(s) ==
   IF s.phase = "pre" THEN Genesis({P(2, 1), P(1, 1)} \cup (IF Thorough THEN {P(3, 2), P(2, 0)} ELSE {}))
+                          \cup {[type |-> "InitGenesis", params |-> P(3, 1), vals |-> << V("v1", "k1", 1), V("v2", "k2", 1), V("v3", "k3", 1) >>]}
   ELSE Blocks(s)
        \cup (IF s.phase = "in"
              THEN Adds({"opchild"}, Ops, IF Thorough THEN Keys ELSE {"k1", "k2"}) \cup Adds({"x"}, {"v3"}, {"k3"})
